@@ -9,7 +9,16 @@ res_clean=$(cd "$wt" && PYTHONPATH="$wt" timeout 300 /venv/bin/python "$d/demo.p
 applies=0
 ( cd "$wt" && git apply "$d/patch.diff" ) && applies=1
 res_mut=$(cd "$wt" && PYTHONPATH="$wt" timeout 300 /venv/bin/python "$d/demo.py" >/dev/null 2>&1; echo $?)
-tests=$(cd "$wt" && PYTHONPATH="$wt" timeout 2400 /venv/bin/python -m pytest -q -p no:cacheprovider --timeout=900 -n 6 tests 2>&1 | tail -3 | tr '\n' ' ')
+log=/tmp/wt_validate_$$.log
+(cd "$wt" && PYTHONPATH="$wt" timeout 3000 /venv/bin/python -m pytest -q -ra -p no:cacheprovider --timeout=900 -n 6 tests > "$log" 2>&1)
+tests=$(tail -1 "$log")
+# timing-only failures under load (Hypothesis deadlines / health checks): the failed tests are re-run alone, serially
+failed=$(grep -E "^(FAILED|ERROR) " "$log" | awk '{print $2}' | sort -u | tr '\n' ' ')
+if [ -n "$failed" ]; then
+  rerun=$(cd "$wt" && PYTHONPATH="$wt" timeout 1800 /venv/bin/python -m pytest -q -p no:cacheprovider --timeout=900 $failed 2>&1 | tail -1)
+  tests="$tests || failed tests re-run alone: $rerun"
+fi
+rm -f "$log"
 git -C /repo worktree remove --force "$wt"
 python3 - "$d" "$out" "$applies" "$res_clean" "$res_mut" "$tests" <<'PY'
 import json,sys
